@@ -235,6 +235,52 @@ def run(m: Model, r: Report, tier: str) -> None:
                 r.check("r.run = s.id" in sql and "json_extract(s.properties_pre" in sql, "R3", f"{rad.qualname}#property-selection[{tag}]",
                         "selection by properties must constrain the run's properties_pre", loc=rad.loc)
 
+    # the value bound for `json_extract(...) = ?` has the SQL representation json_extract produces for the stored JSON value: evaluated with
+    # sqlite itself (as for the EXPLAIN checks) for one value of every JSON kind, the bound parameter computed from the source expression
+    import json as _json
+    import sqlite3 as _sq3
+    from sa import miniterp as _mt12
+    binds_v = []
+    for lp in [n for n in ast.walk(rad.node) if isinstance(n, ast.For) and ".items()" in ast.unparse(n.iter) and isinstance(n.target, ast.Tuple) and len(n.target.elts) == 2]:
+        vv = n_ = lp.target.elts[1]
+        for c_ in ast.walk(lp):
+            if isinstance(c_, ast.Call) and isinstance(c_.func, ast.Attribute) and c_.func.attr == "append" and len(c_.args) == 1 and isinstance(vv, ast.Name) \
+                    and any(isinstance(x, ast.Name) and x.id == vv.id for x in ast.walk(c_.args[0])):
+                binds_v.append((lp, vv.id, c_.args[0]))
+    if len(binds_v) < 2:
+        raise AnalysisError(f"{rad.qualname}: bound values of the state / property comparisons not found")
+    def _o12(call, env):
+        t = ast.unparse(call.func)
+        if t == "isinstance" and len(call.args) == 2:
+            tys = {"int": int, "float": float, "str": str, "bool": bool, "list": list, "dict": dict, "bytes": bytes}
+            names = [ast.unparse(x) for x in (call.args[1].elts if isinstance(call.args[1], ast.Tuple) else
+                                              ([call.args[1].left, call.args[1].right] if isinstance(call.args[1], ast.BinOp) else [call.args[1]]))]
+            flat = []
+            for nm in names:
+                flat += [x.strip() for x in nm.split("|")]
+            return isinstance(_mt12.eval_expr(call.args[0], env, _o12), tuple(tys[x] for x in flat if x in tys))
+        if t == "json.dumps":
+            kw = {k.arg: _mt12.eval_expr(k.value, env, _o12) for k in call.keywords}
+            return _json.dumps(_mt12.eval_expr(call.args[0], env, _o12), **kw)
+        return NotImplemented
+    mem = _sq3.connect(":memory:")
+    for lp, vname, expr in binds_v:
+        what = "state" if "state" in ast.unparse(lp.iter) else "properties"
+        samples = [5, 1.5, True] if what == "state" else [5, 1.5, True, "1.0.3", "sw ä", [1, 2], {"a": 1}]
+        badv = []
+        for v in samples:
+            stored = _json.dumps({"k": v}, sort_keys=True)
+            bound = _mt12.eval_expr(expr, {vname: v}, _o12)
+            try:
+                hit = mem.execute("SELECT json_extract(?, '$.k') = ?", (stored, bound)).fetchone()[0]
+            except _sq3.Error as e:
+                hit = f"sqlite error {e}"
+            if hit != 1:
+                got_ = mem.execute("SELECT json_extract(?, ?)", (stored, "$.k")).fetchone()[0]
+                badv.append(f"{v!r} is bound as {bound!r} but json_extract yields {got_!r}")
+        r.check(not badv, "R3", f"{rad.qualname}#bound-{what}-values",
+                f"{badv[:3]}: the comparison is never true for such values, so a recording selected by them is replayed as silence", loc=f"{rad.module.relpath}:{lp.lineno}")
+
     # ---------------------------------------------------------------- R4
     g = CFG(rad.node)
     adv = [n for n in g.nodes.values() if n.kind == "stmt" and isinstance(n.ast, ast.Assign) and m.mtext(rad, n.ast) == "self.last_response = _L[0]"]
